@@ -274,7 +274,7 @@ func (in *instr) run(path string) error {
 		astutil.AddImport(in.fset, f, netImport)
 	}
 	// drop imports that became unused because of call-site rewrites
-	for _, imp := range []string{"net"} {
+	for _, imp := range []string{"net", "os"} {
 		if !astutil.UsesImport(f, imp) {
 			astutil.DeleteImport(in.fset, f, imp)
 		}
@@ -304,6 +304,18 @@ func (in *instr) pre(c *astutil.Cursor) bool {
 			return false
 		}
 	case *ast.CallExpr:
+		if recv, name, ok := in.methodOn(v.Fun); ok && recv == "os.File" && (name == "Write" || name == "WriteString") {
+			// the disk seam: fd.Write(b) -> verifsim.FileWrite(fd, b)
+			se := v.Fun.(*ast.SelectorExpr)
+			fn := "FileWrite"
+			if name == "WriteString" {
+				fn = "FileWriteString"
+			}
+			v.Args = append([]ast.Expr{se.X}, v.Args...)
+			v.Fun = &ast.SelectorExpr{X: ast.NewIdent("verifsim"), Sel: ast.NewIdent(fn)}
+			in.useSim, in.changed = true, true
+			stats["rewrite.filewrite"]++
+		}
 		if p, name, ok := in.pkgFunc(v.Fun); ok {
 			switch {
 			case p == "net" && name == "Listen":
@@ -318,6 +330,12 @@ func (in *instr) pre(c *astutil.Cursor) bool {
 				v.Fun = &ast.SelectorExpr{X: ast.NewIdent("verifsimnet"), Sel: ast.NewIdent("SSHDial")}
 				in.useNet, in.changed = true, true
 				stats["rewrite.net"]++
+			case p == "os" && fsFuncs[name]:
+				// the os functions that change the file system go through wrappers
+				// that refuse to act for a killed process (verifsim/helpers.go)
+				v.Fun = &ast.SelectorExpr{X: ast.NewIdent("verifsim"), Sel: ast.NewIdent("OS" + name)}
+				in.useSim, in.changed = true, true
+				stats["rewrite.osfs"]++
 			case p == "os" && name == "Hostname":
 				v.Fun = &ast.SelectorExpr{X: ast.NewIdent("verifsim"), Sel: ast.NewIdent("Hostname")}
 				in.useSim, in.changed = true, true
